@@ -513,6 +513,9 @@ func (ca *clusterAdmin) AlterPartitionReassignments(topic string, assignment [][
 					}
 				}
 			}
+			if _, ok := rsp.Errors[topic]; !ok && len(errs) == 0 && len(assignment) > 0 {
+				errs = append(errs, ErrIncompleteResponse)
+			}
 		}
 
 		if len(errs) > 0 {
